@@ -28,7 +28,7 @@ THEOREMS = [
     "C16.sample_feedback_combined_partial",
     "C16.debounce_feedback_rule",
 ]
-RULE = ("30% of the cases are RUN in fractional seconds (1/10 or 1/100 s per unit; float clock of TestScheduler or — throttle_first / debounce — the datetime clock of HistoricalScheduler, optionally at a wall-clock sized epoch; float or timedelta windows) while generated, modelled and judged in exact integer units: gaps exactly equal to the window / due time stay exact; throttle_with_mapper durations include reactivex.timer(d) WITHOUT a scheduler (must run on the subscribe-time scheduler; real-time leaks are counted); 30% of the hot throttle_first / sample cases have a consumer that pushes an echo element into the source from inside on_next (re-entrant feedback); 20% of the non-mapper cases subscribe the SAME observable instance a second time (overlapping or later) and compare with a fresh single subscription; timelines of 0..7 elements + terminal (completed/error/none; 12% non-conforming or with pre-subscription messages): bursts, gaps of exactly "
+RULE = ("25% of the debounce / throttle_first / sample(period) cases give the operator the scheduler of the timeline as its own scheduler= argument and subscribe with a DIFFERENT, never started scheduler (the operator-level one must win); 30% of the sample(observable) cases pass the sampler as a bare abc.ObservableBase implementation; 30% of the cases are RUN in fractional seconds (1/10 or 1/100 s per unit; float clock of TestScheduler or — throttle_first / debounce — the datetime clock of HistoricalScheduler, optionally at a wall-clock sized epoch; float or timedelta windows) while generated, modelled and judged in exact integer units: gaps exactly equal to the window / due time stay exact; throttle_with_mapper durations include reactivex.timer(d) WITHOUT a scheduler (must run on the subscribe-time scheduler; real-time leaks are counted); 30% of the hot throttle_first / sample cases have a consumer that pushes an echo element into the source from inside on_next (re-entrant feedback); 20% of the non-mapper cases subscribe the SAME observable instance a second time (overlapping or later) and compare with a fresh single subscription; timelines of 0..7 elements + terminal (completed/error/none; 12% non-conforming or with pre-subscription messages): bursts, gaps of exactly "
         "d-1/d/d+1 ticks, elements at / around sampler ticks, terminal with a pending element, simultaneous arrivals; hot and cold sources; "
         "non-trivial = output differs from the source as seen (something was dropped, delayed or flushed)")
 ASSUMPTIONS = ["virtual time in integer ticks on TestScheduler; the operator's timers are armed inside on_next / after the source subscription, so a "
@@ -90,6 +90,10 @@ def cases(rng, tier):
             c["msgs"] = T.to_cold(msgs) if src == "cold" else msgs
             if op in ("throttle_first", "debounce", "debounce_alias") and "echo" not in c and c.get("d", 1) > 0 and rng.random() < 0.2:
                 c["sched"] = "hist"
+            if op in ("throttle_first", "debounce", "debounce_alias", "sample"):
+                T.gen_opsched(rng, c)          # operator-level scheduler (of the timeline) + a different subscribe-level scheduler
+            if op == "sample_obs" and rng.random() < 0.3:
+                c["bare"] = True               # the sampler as a bare abc.ObservableBase implementation
             T.gen_scale(rng, c, qs=(10,) if op == "sample" else (10, 100), wall_ok=c.get("sched") == "hist")
             if op == "sample" and "scale" in c:
                 c["stop"] = SUB + (STOP - SUB) * c["scale"]          # the disposal instant in units
@@ -112,16 +116,16 @@ def impl(case):
     op = case["op"]
     if case.get("sched") == "hist":        # datetime clock (optionally wall-clock sized), timedelta window / due time
         mk = {"throttle_first": ops.throttle_first, "debounce": ops.debounce, "debounce_alias": ops.throttle_with_timeout}[op]
-        return T.run_hist(case, lambda s, xs: xs.pipe(mk(T.real_dur(case, case["d"], True))))
+        return T.run_hist(case, lambda s, xs: xs.pipe(mk(T.real_dur(case, case["d"], True), **T.sk(case, s))))
     rc = T.realize(case)
     if op == "throttle_first":
-        return T.run_test(rc, lambda s, xs: xs.pipe(ops.throttle_first(rc["d"])))
+        return T.run_test(rc, lambda s, xs: xs.pipe(ops.throttle_first(rc["d"], **T.sk(rc, s))))
     if op == "debounce":
-        return T.run_test(rc, lambda s, xs: xs.pipe(ops.debounce(rc["d"])))
+        return T.run_test(rc, lambda s, xs: xs.pipe(ops.debounce(rc["d"], **T.sk(rc, s))))
     if op == "debounce_alias":
-        return T.run_test(rc, lambda s, xs: xs.pipe(ops.throttle_with_timeout(rc["d"])))
+        return T.run_test(rc, lambda s, xs: xs.pipe(ops.throttle_with_timeout(rc["d"], **T.sk(rc, s))))
     if op == "sample":
-        return T.run_test(rc, lambda s, xs: xs.pipe(ops.sample(rc["period"])))
+        return T.run_test(rc, lambda s, xs: xs.pipe(ops.sample(rc["period"], **T.sk(rc, s))))
     if op == "sample_obs":
         return T.run_test(rc, lambda s, xs, sampler: xs.pipe(ops.sample(sampler)), sources=("msgs", "sampler"))
     if op == "throttle_with_mapper":
@@ -323,6 +327,7 @@ def nontrivial(case, io):
 def bucket(case, io):
     yield from T.shape(case, io)
     yield f"{case['op']}:second-subscription={'sub2' in case}"
+    yield f"{case['op']}:opsched={bool(case.get('opsched'))}:bare={bool(case.get('bare'))}"
     yield f"{case['op']}:scale={case.get('scale', 1)}:td={bool(case.get('td'))}:sched={case.get('sched', 'test')}:wall={bool(case.get('wall'))}"
     if "echo" in case:
         yield f"{case['op']}:reentrant-feedback"
